@@ -115,7 +115,16 @@ impl Check for C13 {
     fn run(&self, p: &Params, tape: &mut Tape, ctx: &mut Ctx) {
         let small = p.section == 0;
         let mut r = tape.fork();
-        let (bytes, rf) = icd::clutter_filter_map(tape, &mut r, if small { 1 } else { 255 }, !small);
+        let (bytes, rf) = if !small && tape.draw(40) == 39 {
+            // 200..255 segments with 40..60 zones in every azimuth: a well-formed body of 13..22 MiB
+            ctx.count("body_above_16_mib_attempted");
+            icd::clutter_filter_map_with(&mut r, 200 + tape.draw(56) as usize, 3, None)
+        } else {
+            icd::clutter_filter_map(tape, &mut r, if small { 1 } else { 255 }, !small)
+        };
+        if bytes.len() > 16 * 1024 * 1024 {
+            ctx.count("body_above_16_mib");
+        }
         let zones: usize = rf.segments.iter().map(|s| s.iter().map(|a| a.len()).sum::<usize>()).sum();
         ctx.nontrivial = !rf.segments.is_empty() && zones > 0;
         ctx.class.u(rf.segments.len() as u64);
